@@ -108,6 +108,11 @@ def noTerm (tol : Rat) (k : Kind) (t : Term) (c : GQ) : Op := noTermFuel tol k (
 def normalOrdered (tol : Rat) (k : Kind) (a : Op) : Op :=
   a.foldl (fun acc (t, c) => iadd tol acc (noTerm tol k t c)) []
 
+/-- exact-regime test evaluated by the driver per input: every coefficient lies on the lattice
+`(1/D)·ℤ[i]` (then, for `tol·D ≤ 1`, `+=` only ever deletes exact zeros: OFV.C03.normal_ordered_exact_regime) -/
+def latB (D : Nat) (a : Op) : Bool :=
+  a.all fun e => (e.2.re * D).den == 1 && (e.2.im * D).den == 1
+
 /-! ### InteractionOperator branch -/
 
 /-- `itertools.combinations(l, k)` -/
